@@ -244,6 +244,8 @@ package statf
 //@   sites ).Read = 9
 //@   site ).Skip#0 assert [C04] $1 == 8 && $2 == 3 && $3 == true
 //@   sites ).Skip = 1
+//@   site ).Read#4 assert [C04] $1 == addr(k0)
+//@   site ).Read#5 assert [C04] $1 == addr(v0)
 //@   safety [C05]
 //
 //@ func (*StatMicMsgBody).ReadBlock
@@ -272,6 +274,8 @@ package statf
 //@   site ).Write#8 assert [C03] $2 == 5
 //@   site ).Write#9 assert [C03] $2 == 6
 //@   sites ).Write = 10
+//@   site ).Write#5 assert [C03] $1 == k1
+//@   site ).Write#6 assert [C03] $1 == v1
 //
 //@ func (*StatSampleMsg).ResetDefault
 //@   requires st != nil
